@@ -651,6 +651,18 @@ theorem tucker_ttvCore_spec [CommSemiring α] (T : Ttensor α) (hT : TuckerWF T)
       rw [← this]
       rfl
 
+/-- A vector whose length differs from the extent of its mode is rejected. -/
+theorem tucker_ttvCore_rejects [Add α] [Mul α] [Zero α] (T : Ttensor α) (pairs : List (Nat × List α))
+    (h : ∃ p ∈ pairs, p.2.length ≠ T.shape.getD p.1 0) : T.ttvCore pairs = .error .reject := by
+  unfold Ttensor.ttvCore
+  have : pairs.any (fun p => p.2.length != (T.factors.getD p.1 []).length) = true := by
+    rw [List.any_eq_true]
+    obtain ⟨p, hp, hne⟩ := h
+    refine ⟨p, hp, ?_⟩
+    rw [← tshape_getD]
+    simpa using hne
+  simp only [this, if_true]
+
 /-- **Tucker `ttv` as called** with `dims` in any order and one vector per listed mode. -/
 theorem tucker_ttv_dims [CommSemiring α] (T : Ttensor α) (hT : TuckerWF T) (d : List Nat) (vs : List (List α))
     (hd : d.Nodup) (hN : ∀ x ∈ d, x < T.factors.length) (hl : vs.length = d.length)
